@@ -638,3 +638,72 @@ CONTRACTS += [
                  'implies(%s == "Bits", is_list(%s))' % (BT, SUBS)]),
 ]
 CONTRACTS[-1].tier = 'thorough'      # ~300 paths with string-heavy path conditions: minutes
+
+# ---------------------------------------------------------------- MODULE-IDENTITY, type declarations, OBJECT-TYPE
+REV_REQ = ['implies(truthy(data[5]), is_list(data[5]) and len(data[5]) >= 1 and is_dict(data[5][0]) and '
+           '"revision" in data[5][0])']
+mi = handler('genModuleIdentity', Lst(Str, Any, Any, Any, Any, Any, OIDT),
+             merged(common('data[0]', 'moduleidentity', ['revisions', 'lastupdated', 'organization', 'contactinfo',
+                                                         'description'], 'data[6][0]'),
+                    opt('revisions', 'data[5]'), opt('lastupdated', 'data[1]', TEXT), opt('organization', 'data[2]', TEXT),
+                    opt('contactinfo', 'data[3]', TEXT), opt('description', 'data[4]', TEXT),
+                    {'latest_revision_recorded': 'implies(not raised and truthy(data[5]), '
+                                                 'same(self._moduleRevision, data[5][0]["revision"]))'}),
+             ['C03', 'C15', 'C01', 'C12'], requires=REV_REQ)
+mi.assigns = REG_ASSIGNS + ['self._moduleRevision']
+CONTRACTS.append(mi)
+
+td = Contract(id='intermediate.genTypeDeclaration', file=FILE, func='IntermediateCodeGen.genTypeDeclaration',
+              serves=['C03', 'C05'], params={'self': SELF, 'data': Lst(Str, Any)}, inline=H_INLINE,
+              requires=['implies(truthy(data[1]), is_tuple(data[1]) and len(data[1]) == 2 and '
+                        'implies(truthy(data[1][0]), is_dict(data[1][1]) and "oid" not in data[1][1]))'],
+              returns=MapOf(), assigns=REG_ASSIGNS, raises={'PySmiSemanticError': True},
+              ensures={
+                  'type_attributes_merged': 'implies(not raised and truthy(data[1]) and truthy(data[1][0]), '
+                                            'forall(data[1][1], lambda k, v: k in result and same(result[k], v)))',
+                  'class_defaults_to_type': 'implies(not raised and not (truthy(data[1]) and truthy(data[1][0]) and "class" in data[1][1]), '
+                                            'result["class"] == "type")',
+                  'registered_iff_it_has_a_parent_type': 'implies(not raised and truthy(data[1]) and truthy(data[1][0]), '
+                                                         'same(self._out[%s], result))' % HY('data[0]'),
+                  'sequence_types_are_not_symbols': 'implies(not raised and not (truthy(data[1]) and truthy(data[1][0])), '
+                                                    'same(self._out, old(self._out)))',
+              })
+CONTRACTS.append(td)
+
+# caller-facing summary of genDefVal (its five notations are verified separately above)
+CONTRACTS.append(Contract(
+    id='intermediate.genDefVal', file=FILE, func='IntermediateCodeGen.genDefVal', serves=['C05'], trusted=True,
+    params={'self': SELF, 'data': Any, 'objname': Any},
+    requires=[], returns=Any,
+    ensures={'nothing_for_nothing': 'implies(not raised and not truthy(data), is_dict(result) and not truthy(result))',
+             'a_default_record_or_nothing': 'implies(not raised and truthy(data) and truthy(objname), is_dict(result) and '
+                                            '(not truthy(result) or ("default" in result and is_dict(result["default"]))))'},
+    raises={'PySmiSemanticError': True},
+    notes=['summary of the per-notation contracts intermediate.genDefVal[number|hex|bin|string|label]']))
+
+COLS = 'self.symbolTable[self.moduleName[0]]["_symtable_cols"]'
+NAME = HY('data[0]')
+ot = handler('genObjectType', Lst(Str, Tup(Any, Any), Any, Any, Any, Any, Any, Any, Any, Any, OIDT),
+             merged(common('data[0]', 'objecttype', ['nodetype', 'syntax', 'default', 'units', 'maxaccess', 'indices',
+                                                     'reference', 'augmention', 'status', 'description'], 'data[10][0]'),
+                    opt('units', 'data[2]'), opt('maxaccess', 'data[3]'), opt('status', 'data[4]'),
+                    opt('description', 'data[5]', TEXT), opt('reference', 'data[6]', TEXT),
+                    opt('syntax', 'data[1][1]'),
+                    {
+                        # C06: column iff member of a SEQUENCE, else what the SYNTAX says (table / row / scalar)
+                        'nodetype_classification': 'implies(not raised and truthy(data[1][0]), same(result["nodetype"], '
+                            'ite(%s in %s, "column", ite(data[1][0] == "Bits", "scalar", data[1][0]))))' % (NAME, COLS),
+                        'nodetype_iff_syntax_kind': 'implies(not raised, iff("nodetype" in result, truthy(data[1][0])))',
+                        'indices_in_order': 'implies(not raised, iff("indices" in result, truthy(data[8]) and truthy(data[8][0])) '
+                                            'and implies("indices" in result, same(result["indices"], data[8][0])))',
+                        'augments_names_the_row': 'implies(not raised, iff("augmention" in result, truthy(data[7])) and '
+                            'implies("augmention" in result, same(result["augmention"]["object"], %s) and '
+                            'same(result["augmention"]["module"], self.moduleName[0]) and '
+                            'same(result["augmention"]["name"], %s)))' % (HY('data[7]'), NAME),
+                    }),
+             ['C03', 'C06', 'C15', 'C05', 'C01'],
+             requires=['self.moduleName[0] in self.symbolTable', 'is_dict(self.symbolTable[self.moduleName[0]])',
+                       '"_symtable_cols" in self.symbolTable[self.moduleName[0]]', 'is_list(%s)' % COLS,
+                       'implies(truthy(data[8]), is_tuple(data[8]) and len(data[8]) == 3)',
+                       'implies(truthy(data[7]), is_str(data[7]))'])
+CONTRACTS.append(ot)
